@@ -2396,6 +2396,10 @@ impl TxParticipant {
         );
 
         // Try to acquire locks
+        // Taking the key locks, capturing the undo images and registering the prepared entry
+        // must be one step with respect to commit/abort of the same transaction (duplicate
+        // PREPAREs can be handled concurrently with each other and with an ABORT).
+        let mut prepared = self.prepared.write();
         let lock_handle = match self.locks.try_lock(request.tx_id, &lock_keys) {
             Ok(handle) => handle,
             Err(conflicting_tx) => {
@@ -2429,7 +2433,7 @@ impl TxParticipant {
         );
 
         // Store prepared state with undo log and checksums
-        self.prepared.write().insert(
+        prepared.insert(
             request.tx_id,
             PreparedTx {
                 tx_id: request.tx_id,
